@@ -225,7 +225,12 @@ class Connection:
             await self.stream.write(self.error(msg=e))
             raise AuthenticationFailed() from e
 
-        await self.session.reset()
+        try:
+            await self.session.reset()
+        except Exception as e:
+            # The OK of the exchange is on the wire already: a second packet would be unsolicited
+            logger.exception(e)
+            raise AuthenticationFailed() from e
 
     async def authenticate(
         self,
